@@ -231,21 +231,6 @@ def run(ctx):
     res.count("evaluations", res.counters["trees_judged"] + res.counters["verbatim_checks"])
 
 
-# ------------------------------------------------------------------------------------------------
-# known findings (mechanism-keyed reproducers)
-
-
-def _repro_mod():
-    eng = Engine()
-    stored = eng.loads("CLASS EXPRESSION ([a] = [b] % 2) END")["expression"]
-    got = X.erase(X.parse(stored))
-    want = ("cmp", "=", ("leaf", "bind", "[a]"), ("bin", "%", ("leaf", "bind", "[b]"), ("leaf", "num", 2.0)))
-    return None if got == want else f"([a] = [b] % 2) is stored as {stored}"
-
-
-KNOWN = {"mod-at-comparison-level": _repro_mod}
-
-
 def replay(ctx, v):
     eng = Engine()
     case = v["case"]
